@@ -219,6 +219,11 @@ func buildOps(c *config) []space.Op {
 	each("Add", true)
 	each("Contains", true)
 	each("Remove", true)
+	for _, sd := range sides { // far beyond any capacity: nothing to remove, nothing may be allocated or touched
+		for _, v := range []uint{1 << 40, ^uint(0)} {
+			ops = append(ops, space.Op{Name: sd + ".Remove", Args: []int{int(v)}})
+		}
+	}
 	each("Grow", false)
 	if c.kind != kDsz {
 		for _, b := range []string{"Diff", "Intersect", "Merge"} {
